@@ -1505,6 +1505,10 @@ class TimePoint:
         """Returns a copy of this TimePoint with truncated time properties
         added to it."""
         new = self._get_end_of_day_normalised()._copy()
+        if hour_of_day == CALENDAR.HOURS_IN_DAY:
+            # 24:00 is 00:00 of the next day (no point keeps an hour of 24
+            # through _tick_over, so stepping up to it would never end).
+            hour_of_day = 0
         if hour_of_day is not None and minute_of_hour is None:
             minute_of_hour = 0
         if ((hour_of_day is not None or minute_of_hour is not None) and
